@@ -645,6 +645,18 @@ Definition pred_c13 (g : ghost) (w : world) (a : action) (O : oracle) (w' : worl
               if (bprefix (bs "totp2fa_") (io_page i) || bprefix (bs "sms2fa_") (io_page i)) &&
                  negb (beqb (aget k_2fa_authed sess) v_true) then [1139] else []
           | _ => []
+          end) ++
+         (* ... and that authorisation is spent by a completed enrolment: when a confirm page enrolled a factor
+            (the owner's totp secret / sms number changed from this request), the mark is gone from the session *)
+         (match q_route r, owner with
+          | RTotpConfirm, Some p | RSmsConfirm, Some p =>
+              match user_of w p, iuser_of i p with
+              | Some u, Some u' =>
+                  if negb (beqb (u_totp u) (u_totp u') && beqb (u_sms u) (u_sms u')) && ahas k_2fa_authed (io_sess i)
+                  then [11391] else []
+              | _, _ => []
+              end
+          | _, _ => []
           end)
        else [])
   | _ => []
